@@ -21,7 +21,23 @@ def main():
     for x in json.load(open(f))['findings']:
       out.append('| %s | %s | %s | %s | `%s` |' % (x['property'], x['status'], x.get('commit', ''), str(x.get('what', '')).replace('|', '\\|').replace('\n', ' ')[:400],
                                                  str(x.get('signature', '')).replace('|', '\\|')[:160]))
+  metas = [json.load(open(f)) for f in sorted(glob.glob(os.path.join(V, 'seeded', 'C*', 'meta.json')))]
+  nfirst = sum(1 for m in metas if 'caught first time' in str(m.get('confirmed_by_integrator', {}).get('note', '')))
   out += ['', '## 13. Seeded changes and which checks catch them (generated from seeded/*/meta.json)', '',
+          'How the machinery was tested: in nine rounds, fresh sub-agents that were given only the text of one property and a scratch',
+          'worktree of `/repo` (nothing from `/verif`) each produced one small change that breaks the property while the pinned suite',
+          'still passes, with a demonstration. Each kept change (`seeded/<id>/patch.diff`, `demo.py`, `meta.json`) was applied to a',
+          'scratch worktree of `/repo` HEAD and the property\'s quick check run against it (`harness/run_seed.sh`). %d changes are kept;' % len(metas),
+          'in the last five rounds %d were caught with a concrete replay the first time they were run (earlier rounds are recorded in' % nfirst,
+          'free text in each `meta.json`). Every miss (and every run that only reached',
+          '`no-failing-input-found`) was handed to the builder of that check with the instruction to strengthen the generator or',
+          'oracle *generally* (the lesson, not the patch): construct × context sweeps, history on the same object, priming queries as',
+          'part of the case, boundary values, producer sweeps, un-binding steps, class hierarchies, placeholders pending, boundary',
+          'records. After the last round `harness/run_all_seeds.sh` reports all %d caught with a concrete failing input' % len(metas),
+          '(`.work/seeds.txt`); first-time catch rates of the last three rounds were 7/8, 10/11 and 16/20. Patches that stopped applying',
+          'after a `fix:` commit were re-created on the new HEAD (`patch.orig.diff` kept); one neutralised seed is in `seeded/_retired`.',
+          'Several seeding agents also reported behaviours of the *unmodified* tree that turned out to be genuine defects (repaired:',
+          '72252fc, ec1b24a, ef55647, 77b92f4, cc906e2, c627b20, 4fdb3fa, ef0321b; see §12).', '',
           '| seed | property | what it breaks | needs to manifest | result of the check |', '|---|---|---|---|---|']
   for f in sorted(glob.glob(os.path.join(V, 'seeded', '*', 'meta.json'))):
     m = json.load(open(f))
